@@ -5,9 +5,12 @@ verus! {
 //@include prelude/core.rs
 //@include prelude/io.rs
 //@include prelude/fjall_types.rs
+//@include spec/byte_lemmas.rs
 //@include spec/journal_format.rs
+//@include spec/tag_convert.rs
 
 //@include prelude/paths.rs
+//@broadcast axioms::array_slice_eq_spec, lz4_axioms::lz4_bound, byte_lemmas::group_le_len
 
 //@extract-type src/journal/entry.rs :: Tag
 //@extract-const src/file.rs :: MAGIC_BYTES
@@ -18,40 +21,25 @@ verus! {
 //@end
 
 //@extract src/journal/entry.rs :: From<Tag> for u8 :: from as_trait props=C15+C03
-//@contract
-    ensures r == tag_byte(val), // [C15:tag-encode]
+//@contract-file fn/tag_into_u8.c
 //@end
 
 //@extract src/journal/entry.rs :: TryFrom<u8> for Tag :: try_from as_trait props=C15+C03
-//@contract
-    ensures r == tag_of_byte(value), // [C15:tag-decode]
+//@contract-file fn/tag_try_from_u8.c
 //@end
 
 //@extract src/journal/entry.rs :: serialize_marker_item props=C15+C03
-//@contract
-    ensures
-        r is Ok ==> final(writer).sink() == old(writer).sink() + enc_item(keyspace_id, key@, value@, value_type, compression), // [C15:item-layout] [C03:item-layout]
-        r is Err ==> old(writer).sink().is_prefix_of(final(writer).sink()), // [C03:append-only]
+//@contract-file fn/serialize_marker_item.c
 //@end
 
 //@extract-type src/journal/entry.rs :: Entry
 
 //@extract src/journal/entry.rs :: Entry :: encode_into props=C15+C03
-//@contract
-    ensures
-        r is Ok ==> final(writer).sink() == old(writer).sink() + enc_entry(*self), // [C15:entry-layout] [C03:entry-layout]
-        r is Err ==> old(writer).sink().is_prefix_of(final(writer).sink()), // [C03:append-only]
+//@contract-file fn/entry_encode_into.c
 //@end
 
 //@extract src/journal/entry.rs :: Entry :: decode_from props=C15+C03
-//@contract
-    requires
-        0 <= old(reader).rs().pos <= old(reader).rs().all.len(),
-    ensures
-        read_frame(old(reader).rs(), final(reader).rs()),
-        r is Ok ==> parse_at(old(reader).rs().all, old(reader).rs().pos) == Some((entry_view(r->Ok_0), final(reader).rs().pos)), // [C15:decode-sound] [C03:decode-sound]
-        !old(reader).rs().may_fail ==> (r is Ok <==> parse_at(old(reader).rs().all, old(reader).rs().pos) is Some), // [C15:decode-complete] [C03:decode-complete]
-        !old(reader).rs().may_fail ==> (r matches Err(Error::Io(e)) ==> e.kind == IoErrorKind::UnexpectedEof), // [C03:eof-class]
+//@contract-file fn/entry_decode_from.c
 //@end
 
 //@canary
